@@ -76,6 +76,86 @@ def _rt_chunk(chunk):
     return len(chunk), nt, fails
 
 
+def cmd_split(s):
+    """model of a cmd-style response-file reader (CommandLineToArgvW rules): 2n backslashes + quote -> n backslashes and
+    the quote toggles quoting; 2n+1 backslashes + quote -> n backslashes and a literal quote; other backslashes literal"""
+    out, cur, inq, i, started = [], '', False, 0, False
+    while i < len(s):
+        c = s[i]
+        if c == '\\':
+            j = i
+            while j < len(s) and s[j] == '\\':
+                j += 1
+            nb_ = j - i
+            if j < len(s) and s[j] == '"':
+                cur += '\\' * (nb_ // 2)
+                if nb_ % 2:
+                    cur += '"'
+                else:
+                    inq = not inq
+                started = True
+                i = j + 1
+            else:
+                cur += '\\' * nb_
+                started = True
+                i = j
+            continue
+        if c == '"':
+            inq = not inq
+            started = True
+        elif c in ' \t' and not inq:
+            if started:
+                out.append(cur)
+            cur, started = '', False
+        else:
+            cur += c
+            started = True
+        i += 1
+    if started:
+        out.append(cur)
+    return out
+
+
+def _rspfile_chunk(chunk):
+    """end to end through the real NinjaRule / NinjaBuildElement writers with a response file in use: the arguments of the
+    build statement, as the reader of the response file (gcc-style or cmd-style) sees them, are the arguments given"""
+    import io
+    from mesonbuild.backend import ninjabackend as nb
+    from mesonbuild.linkers.base import RSPFileSyntax
+    fails, nt = [], 0
+    old = nb.rsp_threshold
+    nb.rsp_threshold = 0
+    try:
+        for style, args in chunk:
+            if any('\n' in a for a in args):
+                continue
+            nt += 1
+            st = getattr(RSPFileSyntax, style)
+            rule = nb.NinjaRule('R', ['tool'], nb.NinjaCommandArg.list(['$ARGS', '$in'], nb.Quoting.none), 'desc', rspable=True, rspfile_quote_style=st)
+            el = nb.NinjaBuildElement(set(), 'out.o', 'R', 'in.c')
+            el.add_item('ARGS', list(args))
+            el.rule = rule
+            rule.refcount += 0
+            rule.rsprefcount += 1
+            buf = io.StringIO()
+            try:
+                el.write(buf)
+            except Exception as ex:
+                fails.append({'case': {'style': style, 'args': list(args)}, 'stage': 'rspfile', 'detail': f'{type(ex).__name__}: {ex}'})
+                continue
+            line = [l for l in buf.getvalue().splitlines() if l.startswith(' ARGS = ')]
+            if len(line) != 1 or '_RSP' not in buf.getvalue():
+                fails.append({'case': {'style': style, 'args': list(args)}, 'stage': 'rspfile', 'detail': 'the harness did not get a response-file build statement: ' + buf.getvalue()[:120]})
+                continue
+            text = ninja_eval(line[0][len(' ARGS = '):])
+            back = buildargv(text) if style == 'GCC' else cmd_split(text)
+            if back != list(args):
+                fails.append({'case': {'style': style, 'args': list(args)}, 'stage': 'rspfile', 'detail': f'{style} response file content {text!r} is read as {back!r}'})
+    finally:
+        nb.rsp_threshold = old
+    return len(chunk), nt, fails
+
+
 def _list_chunk(chunk):
     """several arguments joined into one command line arrive as the same list"""
     from mesonbuild.backend import ninjabackend as nb
@@ -120,6 +200,11 @@ def run(REG, tier, seed, jobs):
     ev, nt, fails = pmap(_list_chunk, chunked(iter(lists), 200), jobs)
     parts.append({'name': 'C03/bounded/argv-count-and-order', 'function': 'NinjaRule._quoter (joined command line) / Backend.escape_extra_args', 'bound': f'all argument lists of <= 3 arguments over {words!r}',
                   'evaluations': ev, 'distinct_nontrivial': nt, 'rule': 'every list is distinct', 'exhaustive': True, 'failures': fails})
+    rwords = ['a b', "it's", 'x"y', 'tail\\', '-DMSG=hello world', 'plain', 'a\\b', '#', 'é', 'q\\"']
+    rl = [(st, t) for st in ('GCC', 'MSVC', 'TASKING') for k in (1, 2) for t in itertools.product(rwords, repeat=k)]
+    ev, nt, fails = pmap(_rspfile_chunk, chunked(iter(rl), 60), jobs)
+    parts.append({'name': 'C03/bounded/response-file-end-to-end', 'function': 'NinjaRule / NinjaBuildElement.write with a response file', 'bound': f'{len(rl)} cases: GCC / MSVC / TASKING response-file syntax x all argument lists of <= 2 arguments over {rwords!r}, read back by a buildargv model resp. a CommandLineToArgvW model',
+                  'evaluations': ev, 'distinct_nontrivial': nt, 'rule': 'every case', 'exhaustive': True, 'failures': fails})
     if tier != 'quick':
         rnd = random.Random(seed)
         sample = [s for s in strings(alpha[:10], 3)]
@@ -131,5 +216,6 @@ def run(REG, tier, seed, jobs):
 
 CHECKS = {
     'C03/bounded/quote-roundtrip-against-consumer-models': (_rt_chunk, lambda c: c['arg']),
+    'C03/bounded/response-file-end-to-end': (_rspfile_chunk, lambda c: (c['style'], tuple(c['args']))),
     'C03/bounded/argv-count-and-order': (_list_chunk, lambda c: tuple(c['args'])),
 }
